@@ -23,18 +23,19 @@ CHECKS = {
     'C01': dict(
         text='Lean 4 theorem by induction over operations: in every state reachable by add_bound / add_samples (with transfers) / end of '
              'exploration / discard toggles, each stored sample is in the cube, in its own shell bound, outside all later bounds, stored once; '
-             'model = line-by-line transcription of sampler.py bookkeeping, replayed against real sampler histories op by op.',
-        note='Trusted: Lean kernel + standard axioms; harness/corerec.py + corechecks.py (outside instrumentation, abstraction of the real state); numerics (bounds, networks, likelihood values) are oracles: theorems hold for every oracle answer subject to the stated hypotheses (WF = proposals fresh, in the cube and inside their bound, i.e. C07; PhaseOK/TPhase = phase discipline of run()).', tech='Lean 4 proof (invariant induction, arbitrary geometry oracle) + observed-oracle replay', ref='DESIGN.md §3 C01'),
+             'model = line-by-line transcription of sampler.py bookkeeping (statement lists tied by rfl), replayed against real sampler histories op by op, across resumes; '
+             'for every event sequence the model of run() accepts the phase hypothesis is discharged (C01_run): only soundness of proposals (C07) is assumed.',
+        note='Trusted: Lean kernel + standard axioms; harness/corerec.py + corechecks.py (outside instrumentation, abstraction of the real state); numerics (bounds, networks, likelihood values) are oracles: theorems hold for every oracle answer subject to the stated hypotheses (WF = proposals fresh, in the cube and inside their bound, i.e. C07; PhaseOK/TPhase = phase discipline of run(), proved for every event sequence accepted by Model/Run.lean; the recorded events of real run() calls are checked for acceptance).', tech='Lean 4 proof (invariant induction, arbitrary geometry oracle) + observed-oracle replay', ref='DESIGN.md §3 C01'),
     'C02': dict(
         text='Lean 4 theorems: array alignment, cached counts = visible samples, counts <= proposals in both views, for every run-shaped '
-             'history and every oracle; independent recomputation of log_z, n_eff, weights, shell volumes from the stored samples at every '
+             'history and every oracle (C02_run: for every event sequence of run() calls, no hypothesis); independent recomputation of log_z, n_eff, weights, shell volumes from the stored samples at every '
              'operation boundary of real histories (tolerance 1e-8).',
-        note='Trusted: Lean kernel + standard axioms; harness/corerec.py + corechecks.py (outside instrumentation, abstraction of the real state); numerics (bounds, networks, likelihood values) are oracles: theorems hold for every oracle answer subject to the stated hypotheses (WF = proposals fresh, in the cube and inside their bound, i.e. C07; PhaseOK/TPhase = phase discipline of run()).', tech='Lean 4 proof (counting invariants) + replay + independent estimator recomputation', ref='DESIGN.md §3 C02'),
+        note='Trusted: Lean kernel + standard axioms; harness/corerec.py + corechecks.py (outside instrumentation, abstraction of the real state); numerics (bounds, networks, likelihood values) are oracles: theorems hold for every oracle answer subject to the stated hypotheses (WF = proposals fresh, in the cube and inside their bound, i.e. C07; PhaseOK/TPhase = phase discipline of run(), proved for every event sequence accepted by Model/Run.lean; the recorded events of real run() calls are checked for acceptance).', tech='Lean 4 proof (counting invariants) + replay + independent estimator recomputation', ref='DESIGN.md §3 C02'),
     'C03': dict(
         text='Lean 4 theorems: the three per-shell arrays stay aligned through every operation (no hypothesis), posterior rows are '
              '(p, L(p), blob(p)) triples in storage order, each evaluation at most once; replay over evaluation modes with an instrumented '
              'likelihood whose call log every returned row is checked against.',
-        note='Trusted: Lean kernel + standard axioms; harness/corerec.py + corechecks.py (outside instrumentation, abstraction of the real state); numerics (bounds, networks, likelihood values) are oracles: theorems hold for every oracle answer subject to the stated hypotheses (WF = proposals fresh, in the cube and inside their bound, i.e. C07; PhaseOK/TPhase = phase discipline of run()).', tech='Lean 4 proof (alignment refinement parallel arrays -> rows) + replay with instrumented likelihood', ref='DESIGN.md §3 C03'),
+        note='Trusted: Lean kernel + standard axioms; harness/corerec.py + corechecks.py (outside instrumentation, abstraction of the real state); numerics (bounds, networks, likelihood values) are oracles: theorems hold for every oracle answer subject to the stated hypotheses (WF = proposals fresh, in the cube and inside their bound, i.e. C07; PhaseOK/TPhase = phase discipline of run(), proved for every event sequence accepted by Model/Run.lean; the recorded events of real run() calls are checked for acceptance).', tech='Lean 4 proof (alignment refinement parallel arrays -> rows) + replay with instrumented likelihood', ref='DESIGN.md §3 C03'),
     'C04': dict(
         text='Lean 4 theorems on a finite uniform space: shells partition the cube; every shell term, hence the evidence estimator, the '
              'posterior numerators and the summed shell volumes are unbiased for any bounds, any likelihood, any numbers of proposals '
@@ -49,7 +50,7 @@ CHECKS = {
         text='Lean 4 theorems: loop-slice laws for the run() loop as iteration of a deterministic step (slices, chains of limits, stop after any '
              'number of batches, idempotence) + `decide` theorems over persistence tables regenerated from sampler.py (incremental update covers '
              'every field a batch or a discard switch mutates; resume restores every field run() mutates; full write follows every bound '
-             'insertion/end of exploration); at every write event of real runs the file equals a full write of the in-memory state; resumes from '
+             'insertion/end of exploration; the class of every stored bound is restored by tag dispatch, tied to the readers of the resume block); at every write event of real runs the file equals a full write of the in-memory state; resumes from '
              'batch boundaries are finished and compared bit-for-bit incl. the set of evaluated points.',
         note='Trusted: Lean kernel + propext/Quot.sound; harness/gen_c05.py (AST extraction of key lists, mutated-attribute closures, run skeleton); '
              'harness/c05.py; determinism of numpy/sklearn across processes; the step of the Loop model is not derived from the code (its '
@@ -83,7 +84,9 @@ CHECKS = {
              'acceptance test (1/m) and of the radius law (t^d); closed-form ellipsoid volume = |det B| x volume of the unit ball (Mathlib). '
              'Partial: that the float/PRNG implementation realises the scheme is validated statistically (two-sample z tests per overlap '
              'signature and grid cell, volume calibration, family-wise alpha 1e-9), not proved. Threshold, weights, volume expressions and '
-             'loop bodies are regenerated from union.py / nautilus.py every run (rfl ties).',
+             'loop bodies are regenerated from union.py / nautilus.py every run (rfl ties). SampleBuf model of the two-level proposal cache (Union.sample, serial loop, '
+             'pool branch and merge, hand-out): the counters of both levels are exact after any call sequence (proved); real bounds, incl. their pool workers, are '
+             'recorded and replayed through the model; Union.sample is compared with the proven scheme re-implemented from the member primitives.',
         note='Trusted: Lean kernel + standard axioms; harness/gen_c08.py, gen_c07.py; numpy Generator primitives have their documented laws; '
              'scipy.stats.norm for thresholds. The scheme theorems do not derive the code: the tie is syntactic (loop bodies, formulas) plus the '
              'statistical validation.',
@@ -99,9 +102,11 @@ CHECKS = {
         tech='Lean 4 proof by decide over generated finite tables + bit-exact write/read round trips', ref='DESIGN.md §3 C09'),
     'C10': dict(
         text='Lean 4 theorems: a successful step evaluates exactly n_batch proposed points and adds exactly that to the counter, nothing '
-             'else moves the counter, evaluated points are in the cube; real histories sliced by n_like_max from 0 upward check counter = '
+             'else moves the counter, evaluated points are in the cube; on the model of run() (acceptor of its event sequences, every state-decided branch '
+             'evaluated): no batch at or beyond n_like_max, counter < n_like_max + n_batch, return value = explored and all shells >= n_shell and n_eff test, '
+             'the sampling phase fills the first shell below n_shell; real histories sliced by n_like_max from 0 upward check counter = '
              'logged calls, one batch per step, budget and return value.',
-        note='Trusted: Lean kernel + standard axioms; harness/corerec.py + corechecks.py (outside instrumentation, abstraction of the real state); numerics (bounds, networks, likelihood values) are oracles: theorems hold for every oracle answer subject to the stated hypotheses (WF = proposals fresh, in the cube and inside their bound, i.e. C07; PhaseOK/TPhase = phase discipline of run()).', tech='Lean 4 proof (per-step accounting) + replay with call-logging likelihood', ref='DESIGN.md §3 C10'),
+        note='Trusted: Lean kernel + standard axioms; harness/corerec.py + corechecks.py (outside instrumentation, abstraction of the real state); numerics (bounds, networks, likelihood values) are oracles: theorems hold for every oracle answer subject to the stated hypotheses (WF = proposals fresh, in the cube and inside their bound, i.e. C07; PhaseOK/TPhase = phase discipline of run(), proved for every event sequence accepted by Model/Run.lean; the recorded events of real run() calls are checked for acceptance).', tech='Lean 4 proof (per-step accounting) + replay with call-logging likelihood', ref='DESIGN.md §3 C10'),
     'C11': dict(
         text='Lean 4 theorems: for every completion schedule of an abstract pool, gathering results by task index equals map (so pooled, '
              'scalar and vectorised evaluation are the same function of the batch); `decide` theorems over effect tables regenerated from '
@@ -115,8 +120,9 @@ CHECKS = {
     'C12': dict(
         text='Lean 4 theorems: explored is monotone, sampling-phase operations freeze the bounds and only append (prefix relation on all '
              'three arrays), shells non-empty after exploration, the discard setter touches only derived counts, shows exactly the '
-             'post-exploration rows, and off-on-off restores the state exactly; replay with toggles and bit-level snapshots.',
-        note='Trusted: Lean kernel + standard axioms; harness/corerec.py + corechecks.py (outside instrumentation, abstraction of the real state); numerics (bounds, networks, likelihood values) are oracles: theorems hold for every oracle answer subject to the stated hypotheses (WF = proposals fresh, in the cube and inside their bound, i.e. C07; PhaseOK/TPhase = phase discipline of run()).', tech='Lean 4 proof (phase/prefix invariants, setter algebra) + replay with toggles', ref='DESIGN.md §3 C12'),
+             'post-exploration rows, and off-on-off restores the state exactly; C12_run_frozen: once explored, every continuation the model of run() accepts '
+             '(any calls, limits, toggles) keeps the bounds frozen and only appends; replay with toggles, resumes and bit-level snapshots.',
+        note='Trusted: Lean kernel + standard axioms; harness/corerec.py + corechecks.py (outside instrumentation, abstraction of the real state); numerics (bounds, networks, likelihood values) are oracles: theorems hold for every oracle answer subject to the stated hypotheses (WF = proposals fresh, in the cube and inside their bound, i.e. C07; PhaseOK/TPhase = phase discipline of run(), proved for every event sequence accepted by Model/Run.lean; the recorded events of real run() calls are checked for acceptance).', tech='Lean 4 proof (phase/prefix invariants, setter algebra) + replay with toggles', ref='DESIGN.md §3 C12'),
     'C13': dict(
         text='Lean 4 theorems over all operation sequences and all oracle answers: the four per-ellipsoid records stay aligned '
              'and consistent, split members have >= n_points_min points, points are conserved (minus trimmed members), a '
